@@ -1015,3 +1015,64 @@ def based_int_contracts():
                         requires=lambda pre, a: [("groups", groups_present(n, ("sign", "radix", "non_decimal")))], exits=[
         Exit("return", res="int", post=omni_post), Exit("ValueError")], props=("C03",)))
     return out
+
+
+def unquoted_contracts():
+    """PVLDecoder.decode_unquoted_string / ODLDecoder.decode_unquoted_string (C17): the decoder's definition of the unquoted-string
+    class - no comment delimiter, white space or reserved character in it, not an aggregation keyword or END in any letter case,
+    not decodable as a date/time (ODL: also an identifier)"""
+    from ..pyvc.core import LoopSpec, TupV, ObjV, Z
+    from ..pyvc.objtheory import S, casefold
+    from ..pyvc.lextheory import sub_in, tid
+    from ..pyvc.enctheory import (sub_any, pair_part_in, cf_in, cf_in_flat, tok_pred, pred_id, CONFIGURED, ident_ok)
+    D = "pvl.decoder."
+    CM, WS, RC, ES = tid("g.comments"), tid("g.whitespace"), tid("g.reserved_characters"), tid("g.end_statements")
+    AK = tid("g.aggregation_keywords.items")
+
+    def v_of(env):
+        x = env["value"]
+        return x.t
+
+    def table_exit(env, st):
+        coll = env["coll"]
+        tab = coll.items[1] if isinstance(coll, TupV) else None
+        if isinstance(tab, ObjV) and tab.role == "flatpairs":
+            return [("no comment delimiter in the text", z3.Not(pair_part_in(tab.info["id"], v_of(env))))]
+        return [("no member of the table in the text", z3.Not(sub_any(tab.info["id"], v_of(env))))]
+    inner = LoopSpec(fall_through=lambda env, st, x: [("the item is not in the text", z3.Not(sub_in(x, v_of(env))))], exit=table_exit)
+    kwloop = LoopSpec(fall_through=lambda env, st, x: [("not this aggregation keyword", casefold(x) != casefold(v_of(env)))],
+                      exit=lambda env, st: [("no aggregation keyword casefold-equals the text", z3.Not(cf_in_flat(AK, casefold(v_of(env)))))])
+    esloop = LoopSpec(fall_through=lambda env, st, x: [("not this end statement", casefold(x) != casefold(v_of(env)))],
+                      exit=lambda env, st: [("no end statement casefold-equals the text", z3.Not(cf_in(ES, casefold(v_of(env)))))])
+
+    def unq(v):
+        return z3.And(z3.Not(pair_part_in(CM, v)), z3.Not(sub_any(WS, v)), z3.Not(sub_any(RC, v)),
+                      z3.Not(cf_in_flat(AK, casefold(v))), z3.Not(cf_in(ES, casefold(v))),
+                      z3.Not(tok_pred(pred_id("decode_datetime"), CONFIGURED, v)))
+    out = []
+    for cls in ("PVLDecoder", "ODLDecoder"):
+        dd = Contract(D + cls + ".decode_datetime", params={"value": "str"}, exits=[
+            Exit("return", res=lambda ex: ObjV("decoded"), when=lambda pre, a: tok_pred(pred_id("decode_datetime"), CONFIGURED, a["value"].t)),
+            Exit("ValueError", when=lambda pre, a: z3.Not(tok_pred(pred_id("decode_datetime"), CONFIGURED, a["value"].t)))])
+        dd.assumed = True
+        dd.note = "returns or raises ValueError as decided by one uninterpreted predicate (functional contracts: T_dec / T_off)"
+        out.append(dd)
+    c = Contract(D + "PVLDecoder.decode_unquoted_string", params={"value": "str"}, loops={1: inner, 2: kwloop, 3: esloop}, exits=[
+        Exit("return", res="str", when=lambda pre, a: unq(a["value"].t), post=lambda pre, post, a, r: [
+            ("the string itself is returned", r.t == a["value"].t)]),
+        Exit("ValueError", when=lambda pre, a: z3.Not(unq(a["value"].t)))], props=("C17", "C03"))
+    c.cases = [(cls, {"value": "str", "__cls__": cls}) for cls in ("PVLDecoder", "ODLDecoder")]
+    out.append(c)
+    isid = Contract(D + "ODLDecoder.is_identifier", params={"value": "str"}, exits=[
+        Exit("return", res="bool", post=lambda pre, post, a, r: [("deterministic", r.t == ident_ok(a["value"].t))])])
+    isid.assumed = True
+    isid.pure = True
+    isid.note = "functional contract in the same section (identifier rule)"
+    out.append(isid)
+    o = Contract(D + "ODLDecoder.decode_unquoted_string", params={"value": "str"}, exits=[
+        Exit("return", res="str", when=lambda pre, a: z3.And(unq(a["value"].t), ident_ok(a["value"].t)),
+             post=lambda pre, post, a, r: [("the string itself is returned", r.t == a["value"].t)]),
+        Exit("ValueError", when=lambda pre, a: z3.Not(z3.And(unq(a["value"].t), ident_ok(a["value"].t))))], props=("C17", "C03"))
+    o.cases = [(cls, {"value": "str", "__cls__": cls}) for cls in ("ODLDecoder", "PDSLabelDecoder")]
+    out.append(o)
+    return out
